@@ -79,8 +79,8 @@ def start_with_part(ctx):
     import tempfile
     from pathlib import Path
     import harness_drv as H
-    for k in range(12 if ctx.tier == 'quick' else 120):
-        s = D.gen_scenario(ctx.rng, {'p_contract': 1.0, 'files': [1, 2], 'p_twin': 0.0, 'p_fmt': 0.0})
+    for k in range(40 if ctx.tier == 'quick' else 300):
+        s = D.gen_scenario(ctx.rng, {'p_contract': 1.0, 'files': [1, 2], 'p_twin': 0.0, 'p_fmt': 0.0, 'max_passes': 4})
         for p in s['passes']:
             p['maxT'] = ctx.rng.choice([None, None, 2])
         s['cfg'] = {'cacheOn': False, 'silent': True}
@@ -88,6 +88,8 @@ def start_with_part(ctx):
         j = ctx.rng.randrange(len(order))
         target = s['passes'][order[j]]
         s['cfg']['startWith'] = f"TablePass::{target['name']}" + (f" ({target['maxT']} T)" if target['maxT'] is not None else '')
+        if ctx.rng.random() < 0.5:
+            target['prereq'] = False        # the named pass cannot run (tool missing): the passes before it still must not
         s['budget_s'] = 8
         s['sw_order'], s['sw_j'] = order, j
         judge_start_with(ctx, s, k)
@@ -119,7 +121,7 @@ def judge_start_with(ctx, s, k):
             ctx.report('pass-before-start-with-pass-ran', f"--start-with-pass {s['cfg']['startWith']}: pass {ran_before[0]} started candidates although it only occurs before it", sc)
         started_any = any(v[2] > 0 for v in obs['stats'].values())
         marked = [m[1] for m in obs.get('marked', [])]
-        if obs['outcome'] == 'ok' and order[j] not in [i for i in marked]:
+        if obs['outcome'] == 'ok' and order[j] not in [i for i in marked] and s['passes'][order[j]].get('prereq', True):
             ctx.report('start-with-pass-never-reached', f"run_pass was never called for {s['cfg']['startWith']}", sc)
         if started_any:
             ctx.nontrivial(('start-with', k))
